@@ -60,6 +60,13 @@ CLAIMED["C17"] = {
   "technique": "machine-checked proof in Lean 4 (structure of the modelled translation loop; kernel evaluation of instances) + model/implementation correspondence check + translation oracle",
 }
 
+CLAIMED["C18"] = {
+  "text": "Lean 4 theorems (Geodesy/Props/C18.lean) over the context modelled as a state machine on histories of API calls: for EVERY history of register_op / register_resource / op / apply / steps / params calls, an existing handle still denotes the very same operator afterwards (op_frame, by induction over the history; behaviour_frame, shadowing_is_prospective), handles are fresh and unknown handles are errors (handles_unique, unknown_handle_error), run-time registrations take precedence (registration_precedence); and the resolution order of Op::op as four unfolding theorems over an arbitrary environment: pipeline, then user operator for names without colon (even over a built-in), then macro for names with colon, then built-in, else NotFound (resolution_pipeline/user/macro/builtin, user_with_colon_ignored). Tied to /repo by a correspondence run on generated histories (Minimal and Plain, default and new; handles as ordinals; outputs of every call) and on Plain's register files of every layout (several fenced items, item at end of file without terminator, CR / LF / CRLF, prose and foreign fences), and by oracles on the implementation: behaviour/steps/params fingerprints of all handles re-checked after every call, resolution to the user operator, register look-up, and 8 threads sharing a context for apply while another context clears the shared grid cache.",
+  "design_ref": "DESIGN.md section 7, C18",
+  "note": "Partial: real thread schedules are not modelled (apply takes &self; the grid cache is behind a Mutex; Rust's type system is trusted for data races), uuid::new_v4 is modelled as a fresh-name supply, the file system as a function from names to texts.",
+  "technique": "machine-checked proof in Lean 4 (invariant by induction over API histories; unfolding of the modelled resolution order) + model/implementation correspondence check + fingerprint/thread oracles",
+}
+
 ALL = ["C%02d" % i for i in range(1, 21)]
 
 def main():
